@@ -85,7 +85,7 @@ def main(tier, seed):
     dec = common.Decision('C03', tier, seed)
     common.static_gate(dec, ['Properties/C03.v'], ['Proofs/FramingProofs.v', 'Proofs/BaseProofs.v', 'Proofs/FsmProofs.v',
                                                    'Proofs/FsmWProofs.v', 'Proofs/ProviderWProofs.v', 'Proofs/StreamProofs.v',
-                                                   'Proofs/StreamWProofs.v', 'Proofs/FsmStutterProofs.v'])
+                                                   'Proofs/StreamWProofs.v', 'Proofs/FsmStutterProofs.v', 'Proofs/ProviderIdleProofs.v'])
     rng = random.Random(seed)
     cases = []
     refs = {}
